@@ -115,6 +115,14 @@ def rule_fields(ctx):
                     got |= elements_of(p, d, z)
                 if want_all <= got:
                     awaited = True
+    # ... and that await is reached whenever there is something to wait for: guarded by nothing but the truthiness of the awaited collection itself
+    for s in fin:
+        for a in ast.walk(s):
+            if isinstance(a, ast.Await) and isinstance(a.value, ast.Call) and (dotted(a.value.func) or "").split(".")[-1] in ("wait", "gather"):
+                arg_names = {x.id for z in a.value.args for x in ast.walk(z) if isinstance(x, ast.Name)}
+                for t, pol in flat_conditions(p, a, d):
+                    if not (pol and isinstance(t, ast.Name) and t.id in arg_names) and not (not pol and is_loop_closed(t)):
+                        awaited = False
     ctx.ob("C12.FIELDS", tr, "the cancelled tasks are awaited before the dispatcher returns", awaited,
            "dispatcher cleanup: cancelled tasks awaited - missing (tasks may still run after the session is gone)", construct="finally:cancelled tasks awaited", function=p.qualname(d))
     # table entry popped at top level of the finally
@@ -159,6 +167,31 @@ def is_loop_closed(t):
 def rule_detach(ctx):
     ctx.rule("C12.DETACH", "after a worker detaches the data stream, the first suspending construct is the stream's own context")
     check_detach(ctx, "C12.DETACH")
+
+
+def rule_forget_closed(ctx):
+    p = ctx.p
+    ctx.rule("C12.FORGET", "a handler that closes a session's stream/listener also forgets it (`del <session>.<field>`): the presence future of a closed stream would make the "
+                           "next accept callback close the NEW connection and the next transfer run on the closed one")
+    fields = closable_fields(p)
+    n = 0
+    for verb, name, h in p.handlers():
+        conn = p.handler_params(h)[0]
+        for c in walk_no_nested(h):
+            if isinstance(c, ast.Call) and is_method_call(c, "close") and isinstance(c.func.value, ast.Attribute) and isinstance(c.func.value.value, ast.Name) \
+                    and c.func.value.value.id == conn and c.func.value.attr in fields:
+                n += 1
+                f_ = c.func.value.attr
+                st = p.enclosing_stmt(c)
+                blk = p.parent.get(st)
+                body = next((getattr(blk, fld) for fld in ("body", "orelse", "finalbody") if st in getattr(blk, fld, [])), [])
+                later = body[body.index(st) + 1:] if st in body else []
+                ok = any(isinstance(x, ast.Delete) and any(src(t) == f"{conn}.{f_}" for t in x.targets) for x in later)
+                ctx.ob("C12.FORGET", c, f"{name}: `{src(c)}` is followed by `del {conn}.{f_}`", ok,
+                       f"{name} closes {conn}.{f_} but keeps its presence future: the session still 'has' a data connection - the next accepted one is closed by the accept callback "
+                       "and the next transfer is attempted on the closed stream", construct=f"forget:{name}:{f_}")
+    if n < 2:
+        ctx.floor_errors.append(f"rule=C12.FORGET: {n} close sites in handlers (floor 2)")
 
 
 def rule_replace(ctx):
@@ -412,4 +445,4 @@ def rule_borrowed_r4(ctx):
     ctx.borrow(rule_exit, {"C14.EXIT": "C12.EXIT"})
 
 
-RULES = [rule_fields, rule_detach, rule_replace, rule_tasks, rule_close, rule_file, rule_timeout_ends, rule_open_factory, rule_borrowed_r4]
+RULES = [rule_fields, rule_detach, rule_replace, rule_tasks, rule_close, rule_file, rule_timeout_ends, rule_open_factory, rule_borrowed_r4, rule_forget_closed]
